@@ -496,6 +496,11 @@ def dedupeChilds (s : Sys π ν) : List Nat → Res π ν
       | .error e => fail s e
       | .ok pl' => dedupeChilds { s with pnames := dset s.pnames c pl' } cs
 
+/-- rewrite the recorded input names of the nodes `ks` -/
+def mapPnames (s : Sys π ν) (ks : List Nat) (f : String → String) : Sys π ν :=
+  { s with pnames := s.pnames.map fun (kp : Nat × List String) =>
+      if kp.1 ∈ ks then (kp.1, kp.2.map f) else kp }
+
 def delComp (s : Sys π ν) (x : String) (delChilds : Bool) : Res π ν :=
   match dget s.nodes x with
   | none => fail s "ValueError"
@@ -529,9 +534,7 @@ def delComp (s : Sys π ν) (x : String) (delChilds : Bool) : Res π ν :=
                 | none => fail s3 "IndexError"
                 | some pc0 =>
                   -- `for c, i in refs: pnames[c][i] = pname`
-                  let s4 := { s3 with pnames := s3.pnames.map fun (kp : Nat × List String) =>
-                      if kp.1 ∈ childs then (kp.1, kp.2.map fun p => if s.refersTo eidx p then nameOfC pc0 else p)
-                      else kp }
+                  let s4 := s3.mapPnames childs fun p => if s.refersTo eidx p then nameOfC pc0 else p
                   s4.dedupeChilds childs
 
 /-! ### `set_sys_phases`, `set_comp_phases` -/
